@@ -37,7 +37,9 @@ META = {
                   "soundness is demanded, the re-draw caused by the lost autobatch buffer is reported as known finding. "
                   "Re-requesting an already delivered coordinate is not counted as a violation (the statement does not "
                   "forbid it). 'Drawn unpredictably from the whole extended square' is only sampled: per-cell counts of "
-                  "50k real draws within 8 sigma of uniform (false-alarm probability < 1e-10), distinctness and bounds "
+                  "50k real draws on small squares within 8 sigma of uniform, and for every extended width 2..1024 (incl. "
+                  "non-powers of two) 4096 drawn coordinates must hit each of the 4x4 blocks of rows x columns within 8 sigma "
+                  "of its area share (false-alarm probability < 1e-10 overall), distinctness and bounds "
                   "always. Datastore I/O errors, Prune and a change of the sample amount between restarts are outside "
                   "the model. Small-scope: areas 4 and 16, <=3 concurrent callers, 2 normal heights.",
     "design_ref": "DESIGN.md section 5 C03, section 6 #8 #9, section 11",
@@ -250,7 +252,7 @@ def run(ctx):
             "call_while_height_busy", "ret_partial", "ret_len0", "ret_all_served", "ret_kind_cancelled", "ret_kind_deadline",
             "ret_kind_error", "cancelled_call_returned_cancelled", "available_verdicts", "persisted_results_checked",
             "distribution_draws", "steps_applied_cex_orig", "steps_applied_cex_crash", "steps_applied_tlc",
-            "steps_applied_directed", "waiter_cancelled", "call_after_cancelled_waiter", "blocked_callers_confirmed_parked",
+            "steps_applied_directed", "waiter_cancelled", "call_after_cancelled_waiter", "blocked_callers_confirmed_parked", "coverage_widths", "coverage_blocks_checked",
             "crash_lost_unflushed_result", "verdict_outside"]
     missing = [k for k in need if c.get(k, 0) <= 0]
     if missing and rep.get("summary") is not None and rep.get("counters"):
